@@ -82,7 +82,8 @@ def add_bdays(d, n):
 def gen_market(spec):
     """spec (JSON-able): {"seed": int, "symbols": [...], "first": "YYYY-MM-DD", "last": "YYYY-MM-DD",
     "starts": {sym: "YYYY-MM-DD"} (optional later first bar), "gap_prob": float (row missing with
-    this probability, never the first row), "adjust": bool (Adj Close != Close), "sigma": daily vol}.
+    this probability, never the first row), "adjust": bool (Adj Close != Close), "sigma": daily vol,
+    "price_range": [lo, hi] of the first close (default 8..400)}.
     Returns {sym: [(date, open, high, low, close, adj_close, volume), ...]} with 2-decimal positive prices
     (2 decimals so that every CSV reader parses them to the same double)."""
     first, last = parse_day(spec["first"]), parse_day(spec["last"])
@@ -95,7 +96,8 @@ def gen_market(spec):
         rng = random.Random("mkt:%s:%s" % (spec["seed"], sym))
         d0 = parse_day(starts[sym]) if sym in starts else first
         rows = []
-        close = round(rng.uniform(8.0, 400.0), 2)
+        lo, hi = spec.get("price_range") or (8.0, 400.0)
+        close = round(rng.uniform(lo, hi), 2)
         drift = rng.uniform(-0.002, 0.003)
         factor = rng.uniform(0.70, 0.98) if adjust else 1.0
         for i, d in enumerate(business_days(d0, last)):
@@ -389,7 +391,12 @@ def observe(session, taps, error=None):
 def run_session(csv_dir, cfg, data_source=None):
     """Build and run the real session; never raises for a failing run: the error (type, message, broker
     clock when it was raised) is part of the observation."""
-    session, taps = build_session(csv_dir, cfg, data_source=data_source)
+    try:
+        session, taps = build_session(csv_dir, cfg, data_source=data_source)
+    except Exception as exc:  # noqa: BLE001
+        return {"error": {"type": type(exc).__name__, "msg": str(exc), "at": "0000-00-00 construction"},
+                "equity": [], "fills": [], "txns": [], "alloc_rows": [], "qts_calls": [], "cash": float("nan"),
+                "holdings": {}, "account_equity": float("nan"), "broker_dt": "0000-00-00 construction"}
     error = None
     try:
         session.run()
@@ -430,6 +437,19 @@ def digest(x):
 # --------------------------------------------------------------------------------------------------
 # bookkeeping shared by the check modules
 # --------------------------------------------------------------------------------------------------
+def jsonable(x):
+    """Strict-JSON-safe copy (NaN / infinities become strings, tuples become lists)."""
+    if isinstance(x, float):
+        return x if x == x and abs(x) != float("inf") else str(x)
+    if isinstance(x, (list, tuple)):
+        return [jsonable(y) for y in x]
+    if isinstance(x, dict):
+        return {str(k): jsonable(v) for k, v in x.items()}
+    if x is None or isinstance(x, (int, str, bool)):
+        return x
+    return str(x)
+
+
 class Tally(object):
     def __init__(self, clause_names):
         self.clauses = {c: {"checked": 0, "failed": 0} for c in clause_names}
@@ -442,7 +462,8 @@ class Tally(object):
             self.clauses[clause]["failed"] += 1
             self.n_failures += 1
             self.failures.append((size, len(self.failures),
-                                  {"clause": clause, "case": case, "observed": observed, "expected": expected}))
+                                  {"clause": clause, "case": case, "observed": jsonable(observed),
+                                   "expected": jsonable(expected)}))
         return ok
 
     def merge(self, other):
